@@ -369,6 +369,7 @@ PROPS["C05"] = dict(
         enum("Cuts", "TestCuts", shards=(4, 16), config_toml=_C05CONF, timeout=dict(quick=600, thorough=3000)),
         enum("Stalls", "TestStalls", shards=(8, 16), config_toml=_C05CONF, timeout=dict(quick=600, thorough=1200)),
         rapid("Prop", "TestProp", 1200, 60000, shards=(4, 16), config_toml=_C05CONF, timeout=dict(quick=600, thorough=3000)),
+        rapid("Fan", "TestFan", 48, 1600, shards=(8, 16), config_toml=_C05CONF, timeout=dict(quick=600, thorough=3000)),
     ],
     exhaustive_claim=["Cuts", "Stalls"],
     manifest=dict(
